@@ -48,7 +48,7 @@ Init ==
        /\ prog = KB /\ query = Cx("none", <<>>)
        /\ nodes = <<>> /\ stack = <<>> /\ ret = NoneR /\ nextId = 0 /\ stop = FALSE
        /\ outbuf = <<>> /\ hist = <<>> /\ phase = "between" /\ acts = {} /\ steps = 0
-       /\ fireAt = 0 /\ crSeen = 0
+       /\ fireAt = 0 /\ crSeen = 0 /\ lastAct = ""
        /\ calls = <<>> /\ cur = NoCall /\ tainted = FALSE /\ reports = <<>> /\ epno = 0
 
 Next == SessionNext /\ UNCHANGED plan0
